@@ -6,6 +6,8 @@ non-trivial case), assumptions, stages per tier, coverage floors per tier
 """
 
 NATIVE = [{"kind": "native"}]
+# the same workload once more in the overflow-checked build (debug assertions and integer-overflow checks on)
+NATIVE_AND_CHECKED = [{"kind": "native"}, {"kind": "checked", "name": "checked"}]
 
 T_DEFAULT = {"quick": 900, "thorough": 6 * 3600}
 
@@ -100,7 +102,7 @@ PROPS = {
             "readers/writers used for the stream entry points never fail, so any Err is a rejection"],
         "exhaustive": True,
         "exhaustive_note": "the configuration x API space is enumerated completely; pattern lists and haystacks are sampled",
-        "stages": {"quick": NATIVE, "thorough": NATIVE},
+        "stages": {"quick": NATIVE_AND_CHECKED, "thorough": NATIVE_AND_CHECKED},
         "floors": {"quick": {"evaluations": 300_000, "cells_expect_reject": 150_000, "cells_expect_accept": 100_000,
                              "cells_low_level_types": 2_000},
                    "thorough": {"evaluations": 5_000_000}},
@@ -312,7 +314,7 @@ PROPS.update({
                 "result. Same for "
                 "packed::Searcher::find_in in all packed variants. Non-trivial: a proper sub-span with a match.",
         "assumptions": COMMON_ASSUMPTIONS[1:],
-        "stages": {"quick": NATIVE, "thorough": NATIVE},
+        "stages": {"quick": NATIVE_AND_CHECKED, "thorough": NATIVE_AND_CHECKED},
         "floors": {"quick": {"evaluations": 3_000_000, "distinct_nontrivial": 300_000, "outside_rewrites": 1_000_000,
                              "done_spans": 100_000, "input_range_forms": 1_000_000, "packed_span_SlimSSSE3": 100_000, "packed_span_FatAVX2": 100_000,
                              "variant_Packed": 4000, "variant_RareBytesOne": 3000, "variant_StartBytesTwo": 2000,
@@ -516,11 +518,13 @@ PROPS.update({
         "stages": {
             "quick": [
                 {"kind": "native", "name": "guard", "stage": "guard", "crash_is_violation": True},
+                {"kind": "checked", "name": "checked", "stage": "guard", "crash_is_violation": True},
                 {"kind": "asan", "name": "asan", "stage": "asan", "crash_is_violation": True, "env": ASAN_ENV, "tier": "quick"},
                 {"kind": "miri", "name": "miri", "stage": "miri", "tier": "tiny", "shards": 16},
             ],
             "thorough": [
                 {"kind": "native", "name": "guard", "stage": "guard", "crash_is_violation": True},
+                {"kind": "checked", "name": "checked", "stage": "guard", "crash_is_violation": True},
                 {"kind": "asan", "name": "asan", "stage": "asan", "crash_is_violation": True, "env": ASAN_ENV, "tier": "thorough"},
                 {"kind": "miri", "name": "miri", "stage": "miri", "tier": "tiny", "shards": 64},
             ],
